@@ -1,13 +1,218 @@
-From Coq Require Import List ZArith Bool Arith.
-From Koala Require Import Model.Ham Proofs.HamFacts.
-Import ListNotations.
-Open Scope Z_scope.
+(* Props/C07.v — C07: the Majorana Hamiltonian is the sum of bond terms and transforms covariantly.
 
-(* clause "the Majorana Hamiltonian is the sum over edges (j,k) of the bond term with entry +h at [k,j] and its
-   negative at [j,k] and zero elsewhere, so parallel edges add" — for every lattice without self-loops, multigraphs
-   included: the np.add.at program of hamiltonian.py:62-70 (before the factor i/4) equals the bond sum *)
-Theorem C07_ham_is_bond_sum : forall V edges hop r c,
-  no_loops edges = true -> (r < V)%nat -> (c < V)%nat ->
+   Model (Model/Ham.v, extracted and compared entry for entry with koala/hamiltonian.py by harness/c07.py):
+     ham_matrix V edges hop          the array `ham` of hamiltonian.py:62-70 (np.add.at: sequential accumulation)
+     hoppings nE col u J             2 * J[colouring] * u   (J[0] when no colouring)
+     bond_sum edges hop r c          the property's sum of bond terms (+h at [k,j], -h at [j,k], 0 elsewhere)
+   MathComp (Proofs/HamMx.v), C an arbitrary numClosedFieldType, every V:
+     mxZ V f := \matrix_(r,c) f r c : 'M[Z]_V      (tabulated from the executable entry function)
+     majorana V t edges hop := ('i * t) *: map_mx (intr \o int_of_Z) (mxZ V (ham_entry V edges hop)) : 'M[C]_V
+   (t = 1/4 in hamiltonian.py:72; any real t, so that the harness' dyadic scale is covered.)
+   "Same spectrum" is stated as "same characteristic polynomial"; "spectrum symmetric about zero" as
+   chi(-x) = (-1)^V chi(x).  NOT covered by a theorem: LAPACK, float rounding; the fermionic form is the matrix
+   Fmx tabulated from the model's Gaussian-integer entries fermion_entry (4 SJ x the implementation's output). *)
+From Coq Require Import ZArith Permutation.
+From Coq Require List.
+From mathcomp Require Import all_ssreflect all_algebra.
+From mathcomp Require Import fingroup perm ssrZ.
+From Koala Require Import Model.Ham Proofs.HamFacts Proofs.HamBisect Proofs.HamFermion Proofs.HamMx Proofs.HamFermionMx.
+Set Implicit Arguments. Unset Strict Implicit. Unset Printing Implicit Defensive.
+Import GRing.Theory Num.Theory.
+Local Open Scope ring_scope.
+
+(* ---- clause "sum over edges (j,k) of the bond term with entry +h at [k,j] and its negative at [j,k], zero
+   elsewhere, so parallel edges add": every lattice without self-loops, multigraphs included ---- *)
+Theorem C07_ham_is_bond_sum : forall (V : nat) (edges : list edge) (hop : list Z) (r c : nat),
+  no_loops edges = true -> (r < V)%coq_nat -> (c < V)%coq_nat ->
   ham_entry V edges hop r c = bond_sum edges hop r c.
 Proof. exact ham_is_bond_sum. Qed.
 Print Assumptions C07_ham_is_bond_sum.
+
+Theorem C07_ham_is_bond_sum_mx : forall (V : nat) (edges : list edge) (hop : list Z),
+  no_loops edges = true -> mxZ V (ham_entry V edges hop) = Amx V edges hop.
+Proof. exact ham_is_bond_sum_mx. Qed.
+Print Assumptions C07_ham_is_bond_sum_mx.
+
+Theorem C07_majorana_entry : forall (C : numClosedFieldType) (V : nat) (t : C) (edges : list edge) (hop : list Z) (r c : 'I_V),
+  no_loops edges = true ->
+  majorana V t edges hop r c = 'i * t * (int_of_Z (bond_sum edges hop r c))%:~R.
+Proof. exact majorana_entry. Qed.
+Print Assumptions C07_majorana_entry.
+
+(* the literal bond term of the property text is not what is added for a self-loop: the hypothesis is needed *)
+Theorem C07_ham_is_bond_sum_needs_no_loops :
+  exists V edges hop r c, (r < V)%coq_nat /\ (c < V)%coq_nat /\ ham_entry V edges hop r c <> bond_sum edges hop r c.
+Proof. exact ham_is_bond_sum_needs_no_loops. Qed.
+Print Assumptions C07_ham_is_bond_sum_needs_no_loops.
+
+(* ---- clause "zero elsewhere" ---- *)
+Theorem C07_zero_off_edges : forall (C : numClosedFieldType) (V : nat) (t : C) (edges : list edge) (hop : list Z) (r c : 'I_V),
+  no_loops edges = true -> (forall e, List.In e edges -> ~ joins e r c) -> majorana V t edges hop r c = 0.
+Proof. exact majorana_zero_off_edges. Qed.
+Print Assumptions C07_zero_off_edges.
+
+(* ---- clause "Hermitian, purely imaginary and antisymmetric" ---- *)
+Theorem C07_hermitian : forall (C : numClosedFieldType) (V : nat) (t : C) (edges : list edge) (hop : list Z),
+  t \is Num.real -> no_loops edges = true ->
+  (map_mx conjC (majorana V t edges hop))^T = majorana V t edges hop.
+Proof. exact majorana_hermitian. Qed.
+Print Assumptions C07_hermitian.
+
+Theorem C07_purely_imaginary : forall (C : numClosedFieldType) (V : nat) (t : C) (edges : list edge) (hop : list Z) (r c : 'I_V),
+  t \is Num.real -> 'Re (majorana V t edges hop r c) = 0.
+Proof. exact majorana_imag. Qed.
+Print Assumptions C07_purely_imaginary.
+
+Theorem C07_antisymmetric : forall (C : numClosedFieldType) (V : nat) (t : C) (edges : list edge) (hop : list Z),
+  no_loops edges = true -> (majorana V t edges hop)^T = - majorana V t edges hop.
+Proof. exact majorana_antisym. Qed.
+Print Assumptions C07_antisymmetric.
+
+(* ---- clause "spectrum symmetric about zero": chi_H(-x) = (-1)^V chi_H(x) ---- *)
+Theorem C07_spectrum_symmetric : forall (C : numClosedFieldType) (V : nat) (t : C) (edges : list edge) (hop : list Z),
+  no_loops edges = true ->
+  (char_poly (majorana V t edges hop)) \Po (- 'X) = (-1) ^+ V * char_poly (majorana V t edges hop).
+Proof. exact majorana_spectrum_symmetric. Qed.
+Print Assumptions C07_spectrum_symmetric.
+
+(* general form: any antisymmetric matrix over any commutative ring *)
+Theorem C07_char_poly_antisym : forall (R : comRingType) (n : nat) (M : 'M[R]_n),
+  M^T = - M -> (char_poly M) \Po (- 'X) = (-1) ^+ n * char_poly M.
+Proof. exact char_poly_antisym. Qed.
+Print Assumptions C07_char_poly_antisym.
+
+(* ---- clause "spectrum invariant under gauge transformations of u": u_jk -> g_j u_jk g_k ---- *)
+Theorem C07_gauge_hoppings : forall (gl : list Z) (edges : list edge) (col : option (list nat)) (u J : list Z),
+  length u = length edges ->
+  hoppings (length edges) col (gauge_u edges gl u) J
+  = gauge_hop (fun v => List.nth v gl Z0) edges (hoppings (length edges) col u J).
+Proof. exact hoppings_gauge. Qed.
+Print Assumptions C07_gauge_hoppings.
+
+Theorem C07_gauge_DHD : forall (C : numClosedFieldType) (V : nat) (t : C) (g : nat -> Z) (edges : list edge) (hop : list Z),
+  no_loops edges = true ->
+  majorana V t edges (gauge_hop g edges hop)
+  = map_mx (intr \o int_of_Z) (gmx V g) *m majorana V t edges hop *m map_mx (intr \o int_of_Z) (gmx V g).
+Proof. exact majorana_gauge_DHD. Qed.
+Print Assumptions C07_gauge_DHD.
+
+Theorem C07_gauge_similar : forall (C : numClosedFieldType) (V : nat) (t : C) (g : nat -> Z) (edges : list edge) (hop : list Z),
+  no_loops edges = true -> (forall v, (v < V)%N -> Z.mul (g v) (g v) = Zpos 1) ->
+  char_poly (majorana V t edges (gauge_hop g edges hop)) = char_poly (majorana V t edges hop).
+Proof. exact majorana_gauge_similar. Qed.
+Print Assumptions C07_gauge_similar.
+
+(* ---- clause "... and under relabelling the vertices": permute_vertices (lattice.py:523-548) ---- *)
+Theorem C07_inverse_ordering : forall (V : nat) (ordering : list nat) (i : nat),
+  List.NoDup ordering -> (forall x, List.In x ordering -> (x < V)%coq_nat) -> length ordering = V -> (i < V)%coq_nat ->
+  List.nth (List.nth i ordering 0%N) (inverse_ordering V ordering) 0%N = i.
+Proof. exact inverse_ordering_spec. Qed.
+Print Assumptions C07_inverse_ordering.
+
+Theorem C07_relabel_PHPt : forall (C : numClosedFieldType) (V : nat) (t : C) (s : 'S_V) (ordering : list nat) (edges : list edge) (hop : list Z),
+  no_loops edges = true -> wf_edges V edges = true ->
+  size ordering = V -> (forall i : 'I_V, nth 0%N ordering i = s i) ->
+  majorana V t (permute_edges V ordering edges) hop = perm_mx s *m majorana V t edges hop *m (perm_mx s)^T.
+Proof. exact majorana_relabel_PHPt. Qed.
+Print Assumptions C07_relabel_PHPt.
+
+Theorem C07_relabel_similar : forall (C : numClosedFieldType) (V : nat) (t : C) (s : 'S_V) (ordering : list nat) (edges : list edge) (hop : list Z),
+  no_loops edges = true -> wf_edges V edges = true ->
+  size ordering = V -> (forall i : 'I_V, nth 0%N ordering i = s i) ->
+  char_poly (majorana V t (permute_edges V ordering edges) hop) = char_poly (majorana V t edges hop).
+Proof. exact majorana_relabel_similar. Qed.
+Print Assumptions C07_relabel_similar.
+
+(* general form: P Q = 1 => same characteristic polynomial, over any commutative ring *)
+Theorem C07_char_poly_sim : forall (R : comRingType) (n : nat) (P Q M : 'M[R]_n),
+  P *m Q = 1%:M -> char_poly (P *m M *m Q) = char_poly M.
+Proof. exact char_poly_sim. Qed.
+Print Assumptions C07_char_poly_sim.
+
+(* ---- clause "the sublattice bisection keeps edge order and, when the chosen colour class is a perfect
+   matching, places the two ends of each of its edges in opposite halves" ---- *)
+Theorem C07_bisect_keeps_edge_order : forall (V : nat) (ordering : list nat) (edges : list edge) (e : nat),
+  (e < length edges)%coq_nat ->
+  length (permute_edges V ordering edges) = length edges /\
+  List.nth e (permute_edges V ordering edges) (0%N, 0%N)
+  = (List.nth (fst (List.nth e edges (0%N, 0%N))) (inverse_ordering V ordering) 0%N,
+     List.nth (snd (List.nth e edges (0%N, 0%N))) (inverse_ordering V ordering) 0%N).
+Proof. exact (fun V o es e h => conj (permute_edges_length V o es) (permute_edges_nth V o es e h)). Qed.
+Print Assumptions C07_bisect_keeps_edge_order.
+
+Theorem C07_bisect_spec : forall (V : nat) (edges : list edge) (sol : list nat) (along : nat) (ordering : list nat),
+  perfect_matching V (dimer_edges edges sol along) = true ->
+  Permutation ordering (List.seq 0 V) ->
+  sortedb (List.map (fun i => List.nth i (sublattice_labels V edges sol along) 0%N) ordering) = true ->
+  opposite_halves V (dimer_edges (permute_edges V ordering edges) sol along) = true.
+Proof. exact bisect_spec. Qed.
+Print Assumptions C07_bisect_spec.
+
+(* the same with the decidable contract of np.argsort evaluated by the extracted driver on the implementation's
+   vertex order: matching = 1 and argsort = 1 imply halves = 1 *)
+Theorem C07_bisect_spec_checked : forall (V : nat) (edges : list edge) (sol : list nat) (along : nat) (ordering : list nat),
+  perfect_matching V (dimer_edges edges sol along) = true ->
+  is_argsort (sublattice_labels V edges sol along) ordering = true ->
+  opposite_halves V (dimer_edges (permute_edges V ordering edges) sol along) = true.
+Proof. exact bisect_spec_checked. Qed.
+Print Assumptions C07_bisect_spec_checked.
+
+(* ---- clause "the fermionic form is Hermitian with Bogoliubov-de Gennes block structure and its spectrum is exactly
+   twice the Majorana spectrum" — on the model's array (4 SJ x the fermionic matrix, Gaussian integers) ---- *)
+Theorem C07_ham_matrix_antisym : forall (V : nat) (edges : list edge) (hop : list Z),
+  no_loops edges = true -> antisym (ham_matrix V edges hop).
+Proof. exact ham_matrix_antisym. Qed.
+Print Assumptions C07_ham_matrix_antisym.
+
+Theorem C07_fermion_hermitian : forall (n : nat) (A : list (list Z)) (r c : nat),
+  antisym A -> (r < 2 * n)%coq_nat -> (c < 2 * n)%coq_nat ->
+  fermion_entry n A c r = giconj (fermion_entry n A r c).
+Proof. exact fermion_hermitian. Qed.
+Print Assumptions C07_fermion_hermitian.
+
+Theorem C07_fermion_bdg : forall (n : nat) (A : list (list Z)) (i j : nat), antisym A -> (i < n)%coq_nat -> (j < n)%coq_nat ->
+  (* blocks [[h, d], [d^dagger, -h^T]] ... *)
+  (fermion_entry n A i j = fh n A i j /\
+   fermion_entry n A i (n + j) = fd n A i j /\
+   fermion_entry n A (n + i) j = giconj (fd n A j i) /\
+   fermion_entry n A (n + i) (n + j) = gineg (fh n A j i)) /\
+  (* ... with h Hermitian and d antisymmetric *)
+  fh n A j i = giconj (fh n A i j) /\ fd n A j i = gineg (fd n A i j).
+Proof. exact (fun n A i j HA Hi Hj => conj (fermion_blocks n A i j Hi Hj) (conj (fh_hermitian n A i j HA) (fd_antisymmetric n A i j HA))). Qed.
+Print Assumptions C07_fermion_bdg.
+
+(* W (2H) = F W for W = [[1, i], [1, -i]] (x) 1_n, entry by entry (W_twoH, F_W: Model/Ham.v) *)
+Theorem C07_fermion_intertwines : forall (n : nat) (A : list (list Z)) (r c : nat),
+  antisym A -> (r < 2 * n)%coq_nat -> (c < 2 * n)%coq_nat -> W_twoH n A r c = F_W n A r c.
+Proof. exact fermion_intertwines. Qed.
+Print Assumptions C07_fermion_intertwines.
+
+(* lifted to MathComp: W *m W^*/2 = 1, F = W (2H) W^-1, hence the characteristic polynomial of the fermionic form
+   t *: Fmx (t = 1/(4 SJ)) is that of 2 * H: its spectrum is exactly twice the Majorana spectrum *)
+Theorem C07_fermion_W_unitary : forall (C : numClosedFieldType) (n : nat), Wmx C n *m Wimx C n = 1%:M.
+Proof. exact W_Wi. Qed.
+Print Assumptions C07_fermion_W_unitary.
+
+Theorem C07_fermion_similar : forall (C : numClosedFieldType) (n : nat) (A : list (list Z)),
+  antisym A -> Fmx C n A = Wmx C n *m H2mx C n A *m Wimx C n.
+Proof. exact Fmx_similar. Qed.
+Print Assumptions C07_fermion_similar.
+
+Theorem C07_fermion_spectrum_twice : forall (C : numClosedFieldType) (n : nat) (t : C) (edges : list edge) (hop : list Z),
+  no_loops edges = true ->
+  char_poly (t *: Fmx C n (ham_matrix (n + n) edges hop)) = char_poly (2%:R *: majorana (n + n) t edges hop).
+Proof. exact fermion_spectrum_twice. Qed.
+Print Assumptions C07_fermion_spectrum_twice.
+
+Theorem C07_fermion_form_hermitian : forall (C : numClosedFieldType) (n : nat) (t : C) (edges : list edge) (hop : list Z),
+  no_loops edges = true -> t \is Num.real ->
+  (map_mx conjC (t *: Fmx C n (ham_matrix (n + n) edges hop)))^T = t *: Fmx C n (ham_matrix (n + n) edges hop).
+Proof. exact fermion_form_hermitian. Qed.
+Print Assumptions C07_fermion_form_hermitian.
+
+(* ---- non-vacuity: the 4-site honeycomb cell honeycomb_lattice(1), a multigraph (edges (2,1) and (0,3) twice) ---- *)
+Example C07_multigraph_nonvacuous :
+  no_loops hc1_edges = true /\ wf_edges 4 hc1_edges = true /\
+  majorana4 4 hc1_edges (Some [:: 0; 1; 2; 0; 1; 2]%N) [:: Zpos 1; Zpos 1; Zneg 1; Zpos 1; Zneg 1; Zpos 1] [:: Zpos 1; Zpos 2; Zpos 3]
+  = [:: [:: Z0; Zneg 2; Z0; Zneg 2]; [:: Zpos 2; Z0; Zpos 6; Z0]; [:: Z0; Zneg 6; Z0; Zpos 6]; [:: Zpos 2; Z0; Zneg 6; Z0]].
+Proof. exact hc1_example. Qed.
